@@ -67,6 +67,7 @@ class Registry:
         self.axioms = []
         self.consts = {}
         self.ufuncs = {}
+        self.ghostvars = {}
         self.props = {}
 
     def kind(self, text):
@@ -111,6 +112,10 @@ class Registry:
         rk = self.kind(retkind)
         f = z3.Function(name, *([k.sorts()[0] for k in ks] + [rk.sorts()[0]]))
         self.ufuncs[name] = (f, ks, rk)
+
+    def ghostvar(self, name, kind):
+        """Global symbolic constant (e.g. the content of an external store)."""
+        self.ghostvars[name] = kind
 
     def const(self, name, value):
         self.consts[name] = value
